@@ -64,9 +64,17 @@ NewlineFixGood ==
   IsDoc => \A m \in ToSet(Exporters(st.nexp)) : Good(Text, Fix(Text, m, K, "newline"), m, K)
 
 \* T3: the fix the implementation computes today (no separator) satisfies it exactly when there is no
-\* import or the last one ends with `;` - in particular gluing in front of `class` (zero imports) is fine
-GlueFixGoodIffSemicolon ==
-  IsDoc => \A m \in ToSet(Exporters(st.nexp)) : Good(Text, Fix(Text, m, K, "glue"), m, K) <=> LastHasSemi
+\* import or the character before the insertion point ends a token by itself: the `;` of the last import
+\* or the `/` that closes a block comment.  In particular gluing in front of `class` (zero imports) is
+\* fine, and after `import { Bar } from B` or after a line comment it is not.
+GlueOk ==
+  LET e == Fix(Text, "A", K, "glue")[1]
+      before == Before(Text[e.sl + 1], e.sc)
+  IN Len(st.imps) = 0 \/ (before # "" /\ SubSeq(before, Len(before), Len(before)) \in {";", "/"})
+GlueFixGoodIffSeparated ==
+  IsDoc => \A m \in ToSet(Exporters(st.nexp)) : Good(Text, Fix(Text, m, K, "glue"), m, K) <=> GlueOk
+\* ... which needs the `;` unless a block comment follows
+GlueOkNeedsSemicolon == IsDoc => (LastHasSemi => GlueOk) /\ (GlueOk /\ ~LastHasSemi => st.layout = "tight")
 
 \* ApplyEdits: applying two disjoint edits in either order of presentation gives the same text, and an
 \* insertion followed by the deletion of what was inserted is the identity (sanity of section 1)
@@ -91,7 +99,8 @@ Case ==
    cls |-> K,
    exporters |-> Exporters(st.nexp),
    mods |-> [m \in ImportPool \cup ToSet(Exporters(st.nexp)) |-> ModuleText(m, st.nexp)],
-   last_semi |-> LastHasSemi]
+   last_semi |-> LastHasSemi,
+   pred_glue_ok |-> GlueOk]
 
 Emit == IsDoc => PrintT(<<"CASE", ToJson(Case)>>)
 =============================================================================
